@@ -5,7 +5,7 @@ import vlib
 
 LEVEL = "proof"
 PROPS = "Remed/Props_C18.v"
-COQ_FILES = ["Lib/SortSearch.v", "Remed/Vulns.v", "Remed/VulnsProofs.v", "Remed/Props_C18.v"]
+COQ_FILES = ["Lib/SortSearch.v", "Remed/Vulns.v", "Remed/VulnsProofs.v", "Remed/VulnsMore.v", "Remed/Props_C18.v"]
 THEOREMS = ["is_affected_eq_spec", "range_decision_on_any_ordering", "range_decision_eq_declarative", "other_package_never_matches",
             "unknown_ecosystem_never_matches", "listed_version_matches"]
 
@@ -15,7 +15,11 @@ META = {
                   "ranges, events, any listing order) the model of vulns.IsAffected equals the OSV specification's "
                   "evaluation; the model is tied to the code on every run by evaluating it with vm_compute on the "
                   "records the real IsAffected was run on (exhaustive well-formed lists up to 3 events in quick / 5 in "
-                  "thorough, over a 6-version candidate set per ecosystem, every listing permutation, 12 queried versions).",
+                  "thorough, over a 6-version candidate set per ecosystem, every listing permutation, 12 queried versions). "
+                  "Corollaries proved for all inputs (Remed/VulnsMore.v): the decision and well-formedness are invariant under "
+                  "any permutation of a range's events, of an entry's ranges and of the record's entries; the boundary rules in "
+                  "closed form for all ranks a<b ([introduced a, fixed b] = a<=v<b; [introduced a, last_affected b] = a<=v<=b; "
+                  "[introduced 0, fixed b] = v<b; [introduced a] = a<=v).",
     "level_note": "Trusted: Coq kernel + vm_compute; the Go harness (rank assignment by deps.dev semver Compare, which is "
                   "treated as a total preorder oracle); versions are abstracted to ranks; hook guidedremediation/verif_export.go.",
     "design_ref": "DESIGN.md section 5 C18",
